@@ -272,6 +272,18 @@ func (a *boundsAn) formOf0(v ssa.Value) lin {
 				}
 			}
 		}
+	case *ssa.UnOp:
+		// a load of an integer field holds what the closest preceding load / store of the same
+		// access path saw (unique-predecessor chain, no intervening writer): one value, one symbol
+		if x.Op == token.MUL {
+			if _, ok := x.X.(*ssa.FieldAddr); ok && canon(x) == ssa.Value(x) {
+				if r := a.reachingField(x); r != nil && r != ssa.Value(x) {
+					if _, _, isInt := typeRange(r.Type()); isInt {
+						return a.formOf(r)
+					}
+				}
+			}
+		}
 	case *ssa.Phi:
 		// all edges equal?
 		var first lin
@@ -989,6 +1001,8 @@ func (e *boundsEngine) analyse(g *ssa.Function, s *fnSummary) {
 			}
 		}
 	}
+	a.refine()
+	a.refine()
 	// obligations
 	for _, b := range g.Blocks {
 		facts, reached := a.in[b]
@@ -1650,4 +1664,170 @@ func (a *boundsAn) canonicalFieldLoad(ap string, f *types.Var) ssa.Value {
 		}
 	}
 	return nil
+}
+
+
+// refine adds definition facts that need the block facts of the finished fixpoint:
+//
+//	monotone shifts   p = X >> n, q = Y >> n (or / by the same positive constant): X >= Y at the later of
+//	                  the two  =>  p >= q  (floor division by a positive constant is monotone)
+//	exact unsigned    v = X - Y of an unsigned type, kept opaque because it may wrap: X >= Y at v  =>
+//	subtraction       v == X - Y
+//	clamps            p = phi(v1, v2, ...) at a join that is not a loop header: if on every other edge j
+//	                  v_j <= v_i holds, then p <= v_i (likewise >=): `if d > K { d = K }` gives d' <= d
+//	                  and d' <= K
+//
+// Each fact is anchored at the value it speaks about, so it is used only where that value is defined.
+func (a *boundsAn) refine() {
+	factsAt := func(ins ssa.Instruction) factSet {
+		F := a.defsAt(ins).clone()
+		if in, ok := a.in[ins.Block()]; ok {
+			for _, f := range in {
+				F.addGE(f)
+			}
+		}
+		return F
+	}
+	type shiftOp struct {
+		b   *ssa.BinOp
+		key string
+	}
+	var shifts []shiftOp
+	var subs []*ssa.BinOp
+	var phis []*ssa.Phi
+	for _, blk := range a.fn.Blocks {
+		if _, reached := a.in[blk]; !reached {
+			continue
+		}
+		for _, ins := range blk.Instrs {
+			switch x := ins.(type) {
+			case *ssa.BinOp:
+				if _, _, isInt := typeRange(x.Type()); !isInt {
+					continue
+				}
+				switch x.Op {
+				case token.SHR, token.QUO:
+					if n, ok := constInt(x.Y); ok && n > 0 && (x.Op == token.QUO || n < 62) {
+						shifts = append(shifts, shiftOp{x, fmt.Sprintf("%v|%d", x.Op, n)})
+					}
+				case token.SUB:
+					if l, _, _ := typeRange(x.Type()); l == 0 {
+						subs = append(subs, x)
+					}
+				}
+			case *ssa.Phi:
+				if _, _, isInt := typeRange(x.Type()); isInt && len(x.Edges) >= 2 {
+					phis = append(phis, x)
+				}
+			}
+		}
+	}
+	saved := a.anchor
+	defer func() { a.anchor = saved }()
+	for i, p := range shifts {
+		for _, q := range shifts[i+1:] {
+			if p.key != q.key {
+				continue
+			}
+			var later *ssa.BinOp
+			switch {
+			case dominatesInstr(p.b, q.b):
+				later = q.b
+			case dominatesInstr(q.b, p.b):
+				later = p.b
+			default:
+				continue
+			}
+			F := factsAt(later)
+			xp, xq := a.formOf(p.b.X), a.formOf(q.b.X)
+			sp, sq := a.sv(p.b, 'v'), a.sv(q.b, 'v')
+			a.anchor = later
+			if proveGE(xp.sub(xq), F) {
+				a.addDef(sp.sub(sq))
+			}
+			if proveGE(xq.sub(xp), F) {
+				a.addDef(sq.sub(sp))
+			}
+		}
+	}
+	for _, v := range subs {
+		s := a.sv(v, 'v')
+		if !a.formOf(v).equal(s) {
+			continue // already exact
+		}
+		d := a.formOf(v.X).sub(a.formOf(v.Y))
+		if _, self := d.t[sym{canon(v), 'v'}]; self {
+			continue
+		}
+		if proveGE(d, factsAt(v)) {
+			a.anchor = v
+			a.addDef(s.sub(d))
+			a.addDef(d.sub(s))
+		}
+	}
+	for _, p := range phis {
+		M := p.Block()
+		header := false
+		for _, pr := range M.Preds {
+			if M.Dominates(pr) {
+				header = true
+			}
+		}
+		if header {
+			continue
+		}
+		s := a.sv(p, 'v')
+		availableAtM := func(f lin) bool {
+			for sy := range f.t {
+				v, ok := sy.v.(ssa.Value)
+				if !ok {
+					continue
+				}
+				if ins, ok := v.(ssa.Instruction); ok && ins.Block() != nil {
+					if ins.Block() == M || !ins.Block().Dominates(M) {
+						return false
+					}
+				}
+			}
+			return true
+		}
+		for i := range p.Edges {
+			cand := a.formOf(p.Edges[i])
+			if !availableAtM(cand) {
+				continue
+			}
+			if _, self := cand.t[sym{canon(p), 'v'}]; self {
+				continue
+			}
+			upper, lower := true, true
+			for j := range p.Edges {
+				if j == i {
+					continue
+				}
+				pred := M.Preds[j]
+				pin, reached := a.in[pred]
+				if !reached || blockAborts(pred) {
+					continue
+				}
+				F := a.edgeFacts(pred, M, pin)
+				for _, f := range a.defsAt(pred.Instrs[len(pred.Instrs)-1]) {
+					F.addGE(f)
+				}
+				ej := a.formOf(p.Edges[j])
+				if upper && !proveGE(cand.sub(ej), F) {
+					upper = false
+				}
+				if lower && !proveGE(ej.sub(cand), F) {
+					lower = false
+				}
+			}
+			a.anchor = p
+			if upper {
+				a.addDef(cand.sub(s))
+			}
+			if lower {
+				a.addDef(s.sub(cand))
+			}
+		}
+	}
 }
